@@ -92,7 +92,7 @@ fn run_case(log: &mut Log, op: &str, m: &UBig, a: &IBig, b: &IBig, e: &UBig, m2:
             let mut outs = Outs::new();
             outs.push("driver", Err(msg));
             let mut ev = json!({"prop": "C13", "op": op, "src": src, "m": enc_u(m), "a": enc_i(a), "b": enc_i(b), "e": enc_u(e)});
-            if op == "mix" {
+            if op == "mix" || op == "clonefrom" {
                 ev["m2"] = enc_u(m2);
             }
             ev["outs"] = outs.grouped();
@@ -103,6 +103,21 @@ fn run_case(log: &mut Log, op: &str, m: &UBig, a: &IBig, b: &IBig, e: &UBig, m2:
 fn run_case_inner(log: &mut Vec<Value>, op: &str, m: &UBig, a: &IBig, b: &IBig, e: &UBig, m2: &UBig, src: &str) {
     let mut outs = Outs::new();
     let mut ev = json!({"prop": "C13", "op": op, "src": src, "m": enc_u(m), "a": enc_i(a), "b": enc_i(b), "e": enc_u(e)});
+    if op == "clonefrom" {
+        // x (ring of m) is overwritten by y (ring of m2, another ConstDivisor instance): afterwards x IS y - residue,
+        // modulus, and membership of y's ring (it can be added to an element of that ring)
+        ev["m2"] = enc_u(m2);
+        let (r1, r2) = (ConstDivisor::new(m.clone()), ConstDivisor::new(m2.clone()));
+        let (r1, r2) = (&r1, &r2);
+        outs.push("cf", guarded(|| { let mut x = r1.reduce(a.clone()); let y = r2.reduce(b.clone()); x.clone_from(&y); res_mod(&x) }));
+        outs.push("clone", guarded(|| { let y = r2.reduce(b.clone()); res_mod(&y.clone()) }));
+        outs.push("cf+1", guarded(|| { let mut x = r1.reduce(a.clone()); let y = r2.reduce(b.clone()); x.clone_from(&y); res(&(x + r2.reduce(1u8))) }));
+        outs.push("cf==", guarded(|| { let mut x = r1.reduce(a.clone()); let y = r2.reduce(b.clone()); x.clone_from(&y);
+            json!({"r": enc_u(&ubig_from_bytes(&[(x == y) as u8]))}) }));
+        ev["outs"] = outs.grouped();
+        log.push(ev);
+        return;
+    }
     if op == "mix" {
         // two ConstDivisor instances (same or different modulus): every binary operation must panic
         ev["m2"] = enc_u(m2);
@@ -254,7 +269,7 @@ fn random_operand(rng: &mut Rng, m: &UBig, max_words: usize) -> IBig {
     if rng.below(4) == 0 { -x } else { x }
 }
 fn random_driver(log: &mut Log, rng: &mut Rng, n: u64, max_words: usize) {
-    const OPS: &[&str] = &["reduce", "add", "add", "sub", "sub", "mul", "mul", "div", "neg", "dbl", "sqr", "pow", "pow", "inv", "inv", "mix"];
+    const OPS: &[&str] = &["reduce", "add", "add", "sub", "sub", "mul", "mul", "div", "neg", "dbl", "sqr", "pow", "pow", "inv", "inv", "mix", "clonefrom"];
     for _ in 0..n {
         let op = *rng.pick(OPS);
         let m = random_modulus(rng, max_words);
